@@ -60,6 +60,166 @@ theorem gpdGetDt_eq (fs fe : String) (rec : Dict PVal) :
   · cases s <;> io_fin
   · cases s <;> cases e <;> io_fin
 
+/-! ## the writer side: `to_shapefile` -/
+
+def gTup (g : Groups) : List Shape × List Shape × List Shape × List Shape := (g.points, g.multipoints, g.lines, g.shapes)
+
+/-- one step of the classification loop: the shape goes to the list of its family -/
+theorem loop1_step (g : Groups) (s : Shape) : SrcIo.toShapefile.loop1 (gTup g) s =
+    match family s.geom with
+    | some .points => .ok (gTup { g with points := g.points ++ [s] })
+    | some .multipoints => .ok (gTup { g with multipoints := g.multipoints ++ [s] })
+    | some .lines => .ok (gTup { g with lines := g.lines ++ [s] })
+    | some .shapes => .ok (gTup { g with shapes := g.shapes ++ [s] })
+    | none => .error "ERR:Value" := by
+  unfold SrcIo.toShapefile.loop1
+  cases hg : s.geom <;> simp [shapeIsA, hg, family, gTup, pure, Except.pure]
+
+/-- the classification loop is the model's `groupLoop` -/
+theorem loop1_eq (coll : List Shape) : ∀ g : Groups,
+    List.foldlM SrcIo.toShapefile.loop1 (gTup g) coll = (groupLoop coll g).map gTup := by
+  induction coll with
+  | nil => intro g; rfl
+  | cons s rest ih =>
+    intro g
+    rw [List.foldlM_cons, loop1_step, groupLoop]
+    cases hf : family s.geom with
+    | none => rfl
+    | some f => cases f <;> simp only [bind, Except.bind] <;> exact ih _
+
+/-- the `issubclass` chain is `fieldType` -/
+theorem loop3_step (w : WriterS) (k : String) (t : PTag) :
+    SrcIo.toShapefile.loop3 w (k, t) = .ok (WriterS.field w k (fieldType t)) := by
+  unfold SrcIo.toShapefile.loop3
+  cases t <;> simp [PTag.isSub, fieldType, pure, Except.pure]
+
+/-- the declaration loop appends one field per key of the type map -/
+theorem loop3_eq : ∀ (tm : Dict PTag) (w : WriterS),
+    List.foldlM SrcIo.toShapefile.loop3 w tm =
+      .ok { w with file := { w.file with fields := w.file.fields ++ tm.map fun kt => (kt.1, fieldType kt.2) } } := by
+  intro tm
+  induction tm with
+  | nil => intro w; simp [List.foldlM, pure, Except.pure]
+  | cons kt rest ih =>
+    intro w
+    obtain ⟨k, t⟩ := kt
+    rw [List.foldlM_cons, loop3_step]
+    simp [WriterS.field, ih, bind, Except.bind]
+
+/-- what `_convert_dt(props.get(k))` evaluates to -/
+def cvt (props : Dict PVal) (k : String) : V :=
+  match dictGet props k with
+  | some v => V.p (GV.Io.convertDt v)
+  | none => V.none
+
+theorem convertDt_get (props : Dict PVal) (k : String) : SrcIo.convertDt (V.get props k) = .ok (cvt props k) := by
+  unfold V.get cvt
+  cases dictGet props k with
+  | none => rfl
+  | some v => exact convertDt_eq v
+
+theorem cvt_toP (props : Dict PVal) (k : String) :
+    V.toP (cvt props k) = GV.Io.convertDt ((dictGet props k).getD .null) := by
+  unfold cvt
+  cases dictGet props k <;> rfl
+
+/-- one step of the record / shape loop -/
+theorem loop4_step (tm : Dict PTag) (w : WriterS) (i : Nat) (s : Shape) :
+    SrcIo.toShapefile.loop4 tm w (i, s) =
+      match toPyshp s.geom with
+      | none => .error "ERR:Attr"
+      | some call => .ok (WriterS.shape (WriterS.record w (recordOf tm s i)) call) := by
+  unfold SrcIo.toShapefile.loop4
+  simp only []
+  rw [mapExcept_ok _ (cvt s.properties) _ (fun k _ => convertDt_get s.properties k)]
+  simp only [bind, Except.bind, pure, Except.pure]
+  cases toPyshp s.geom with
+  | none => rfl
+  | some call => simp [recordOf, cvt_toP, List.map_map, Function.comp_def]
+
+/-- the record / shape loop writes the model's rows -/
+theorem loop4_eq (tm : Dict PTag) : ∀ (l : List (Nat × Shape)) (w : WriterS),
+    (List.foldlM (SrcIo.toShapefile.loop4 tm) w l).map (·.file) =
+      (writeRows tm l).map fun rows => { w.file with rows := w.file.rows ++ rows } := by
+  intro l
+  induction l with
+  | nil => intro w; simp [List.foldlM, writeRows, pure, Except.pure, Except.map]
+  | cons x rest ih =>
+    intro w
+    obtain ⟨i, s⟩ := x
+    rw [List.foldlM_cons, loop4_step, writeRows]
+    cases hc : toPyshp s.geom with
+    | none => rfl
+    | some call =>
+      simp only [bind, Except.bind]
+      rw [ih]
+      cases writeRows tm rest with
+      | error e => rfl
+      | ok rows => simp [Except.map, WriterS.shape, WriterS.record]
+
+theorem incl_eq (incl : Option (List String)) (k : String) :
+    (!(inclTruthy incl) || inclContains incl k) = included incl k := by
+  rcases incl with _ | _ | ⟨a, l⟩ <;> simp [inclTruthy, inclContains, included]
+
+theorem ok_bind {α β} (a : α) (f : α → Except String β) : (Except.ok a >>= f) = f a := rfl
+
+theorem bind_file (x : Except String WriterS) (out : List ShpFileW) :
+    (x >>= fun st => pure (out ++ [st.file])) = (x.map (·.file)).map (fun f => out ++ [f]) := by
+  cases x <;> rfl
+
+/-- one layer: skipped when empty, else the model's `writeGroup` -/
+theorem loop2_step (incl : Option (List String)) (out : List ShpFileW) (name : String) (group : List Shape) :
+    SrcIo.toShapefile.loop2 incl out (name, group) =
+      if group.isEmpty then .ok out else (writeGroup incl name group).map fun f => out ++ [f] := by
+  unfold SrcIo.toShapefile.loop2
+  by_cases h : group.isEmpty = true
+  · simp [h, pure, Except.pure]
+  · simp only [h, incl_eq, Bool.not_not, Bool.false_eq_true, if_false]
+    rw [loop3_eq, ok_bind]
+    simp only []
+    rw [bind_file, loop4_eq]
+    unfold writeGroup typemapOf
+    simp only []
+    cases writeRows _ (enumFrom 0 group) <;> simp [Except.map, WriterS.field, WriterS.new]
+
+theorem loop2_eq (incl : Option (List String)) : ∀ (groups : List (String × List Shape)) (out : List ShpFileW),
+    List.foldlM (SrcIo.toShapefile.loop2 incl) out groups = (writeGroups incl groups).map (out ++ ·) := by
+  intro groups
+  induction groups with
+  | nil => intro out; simp [List.foldlM, writeGroups, Except.map, pure, Except.pure]
+  | cons x rest ih =>
+    intro out
+    obtain ⟨name, group⟩ := x
+    rw [List.foldlM_cons, loop2_step]
+    by_cases h : group.isEmpty = true
+    · simp only [h, if_true, writeGroups, bind, Except.bind]
+      exact ih out
+    · simp only [h, Bool.false_eq_true, if_false, writeGroups, bind, Except.bind]
+      cases writeGroup incl name group with
+      | error e => rfl
+      | ok f =>
+        simp only [Except.map]
+        rw [ih]
+        cases writeGroups incl rest with
+        | error e => rfl
+        | ok fs => simp [Except.map, pure, Except.pure]
+
+/-- **`CollectionBase.to_shapefile`, translated, writes what the model's `writeShp` writes** -/
+theorem toShapefile_eq (coll : List Shape) (incl : Option (List String)) :
+    SrcIo.toShapefile coll incl = writeShp incl coll := by
+  unfold SrcIo.toShapefile writeShp groupByFamily
+  have h1 : List.foldlM SrcIo.toShapefile.loop1 ([], [], [], []) coll = (groupLoop coll {}).map gTup := loop1_eq coll {}
+  simp only [h1, bind, Except.bind]
+  cases groupLoop coll {} with
+  | error e => rfl
+  | ok g =>
+    simp only [Except.map, gTup]
+    rw [loop2_eq]
+    unfold Groups.toList
+    cases writeGroups incl _ with
+    | error e => rfl
+    | ok fs => simp [Except.map, pure, Except.pure]
+
 /-! ## the importers with the translated helpers in place, and the headline theorems restated for them
 
 `from_shapefile` / `from_geopandas` as `Model/Io.lean` has them, except that the time bounds of a row are what the
@@ -109,13 +269,14 @@ theorem srcFromGeopandas_eq (f : GpdFrameR) (fs fe : String) : srcFromGeopandas 
   rw [gpdGetDt_eq]
   cases convMap r.geomType <;> rfl
 
+/-- `shp_roundtrip_partial` for the translated writer (`to_shapefile`, whole) and the translated `_get_dt` of the reader -/
 theorem shp_roundtrip_partial_src (ch : ShpFileW → ShpFileR) (hch : ∀ f, ch f = idealShp f)
     (coll : List Shape) (hwf : ∀ s ∈ coll, ShapeWF s) (hu : UniformTypes coll) :
-    ∃ g files back, groupByFamily coll = .ok g ∧ writeShp none coll = .ok files ∧
+    ∃ g files back, groupByFamily coll = .ok g ∧ SrcIo.toShapefile coll none = .ok files ∧
       srcReadShp (files.map ch) = .ok back ∧
       List.Forall₂ BackRel (g.points ++ g.multipoints ++ g.lines ++ g.shapes) back := by
   obtain ⟨g, files, back, h1, h2, h3, h4⟩ := shp_roundtrip_partial ch hch coll hwf hu
-  exact ⟨g, files, back, h1, h2, by rw [srcReadShp_eq]; exact h3, h4⟩
+  exact ⟨g, files, back, h1, by rw [toShapefile_eq]; exact h2, by rw [srcReadShp_eq]; exact h3, h4⟩
 
 theorem gpd_roundtrip_partial_src (ch : GpdFrameW → GpdFrameR) (hch : ∀ w, ch w = idealGpd w)
     (coll : List Shape) (hwf : ∀ s ∈ coll, GpdShapeWF s) :
